@@ -85,6 +85,15 @@ def handle : List String → Option (List String)
       let u := buildRdbUnit (cl == "1") (rep == "1") k []
       some [s!"{Hex.encode (rdbTargetKey (rep == "1") k)} slot={u.slot} tag={Hex.encode u.slotTag}"]
     | none => some ["bad-op"]
+  | "c18" :: "rdbcmds" :: useRestore :: firstBin :: replaceExisting :: hasTtl :: rep :: key :: raw =>
+    -- the command list of a snapshot unit; the ttl and dump arguments are canonicalised to "T" / "D" on both sides
+    match Hex.decode key, raw.mapM cmd? with
+    | some k, some rawCmds =>
+      let tgt := rdbTargetKey (rep == "1") k
+      let cs := rdbCommands (useRestore == "1") (firstBin == "1") (replaceExisting == "1") k tgt rawCmds
+        (if hasTtl == "1" then some [84] else none) [84] [68]
+      some [" ".intercalate (cs.map cmdStr)]
+    | _, _ => some ["bad-op"]
   | "c18" :: "build" :: mode :: fb :: cmds =>
     match fb? fb, cmds.mapM cmd? with
     | some f, some cs =>
